@@ -5,6 +5,7 @@
 package node
 
 import (
+	"os"
 	"context"
 	"errors"
 	"fmt"
@@ -283,6 +284,17 @@ func (n *Node) Query(db, sqlText string, lay Layout) (*commonmodels.ResultSet, e
 				return
 			}
 			sim.Event("deliver response from %s err=%q", p.from, p.resp.ErrMsg)
+			if os.Getenv("VERIF_TRACE") != "" && len(p.resp.Payload) > 0 {
+				tsList := &protoCommonV1.TimeSeriesList{}
+				if err := tsList.Unmarshal(p.resp.Payload); err == nil {
+					sim.Event("  payload: start=%d end=%d interval=%d series=%d", tsList.Start, tsList.End, tsList.Interval, len(tsList.TimeSeriesList))
+					for _, ts := range tsList.TimeSeriesList {
+						for name, data := range ts.Fields {
+							sim.Event("    series tags=%q field=%s bytes=%d", ts.Tags, name, len(data))
+						}
+					}
+				}
+			}
 			_ = p.to.Receive(p.resp, p.from)
 		})
 	}
